@@ -53,7 +53,11 @@ def _window_case(cs):
             topology = Topology.from_gmx_topfile(name="c", path=top)
             topology.preprocess()
             topology.volumes = {"RA": a["avg"] / 1000.0}
-            bld = "[ molecule ]\nM 0 1\n[ distance_restraints ]\n%d %d %.3f %.3f\n" % (a["ref"], a["target"], a["d"] / 1000.0, a["tol"] / 1000.0)
+            if cs["kind"] == "window2":
+                bld = "[ molecule ]\nM 0 1\n[ distance_restraints ]\n%d %d %.3f %.3f\n%d %d %.3f %.3f\n" % (
+                    a["ref"], a["t1"], a["d1"] / 1000.0, a["tol"] / 1000.0, a["ref2"], a["t2"], a["d2"] / 1000.0, a["tol"] / 1000.0)
+            else:
+                bld = "[ molecule ]\nM 0 1\n[ distance_restraints ]\n%d %d %.3f %.3f\n" % (a["ref"], a["target"], a["d"] / 1000.0, a["tol"] / 1000.0)
             read_build_file(bld.splitlines(), topology)
             nb = NonBondEngine.from_topology(topology.molecules, topology, np.array([20.0, 20.0, 20.0]))
             set_restraints(topology, nb)
@@ -75,6 +79,38 @@ def _window_case(cs):
             for g, e in zip(got[node], exp[node]):
                 if g[0] != e[0] or abs(g[1] - e[1]) > 1e-9 or abs(g[2] - e[2]) > 1e-9:
                     return ("diff", "node %d: window (ref, upper, lower) = %s, specification %s" % (node, g, e))
+    return ("ok", None)
+
+
+def two_ring_top(n1, n2):
+    def mol(name, n):
+        lines = ["[ moleculetype ]", "%s 1" % name, "[ atoms ]"] + ["%d P %d RA B1 %d 0.0 72" % (i, i, i) for i in range(1, n + 1)]
+        lines += ["[ bonds ]"] + ["%d %d 1 %.3f 100" % (i, i + 1, SIG) for i in range(1, n)] + ["%d 1 1 %.3f 100" % (n, SIG)]
+        return lines
+    lines = ["[ defaults ]", "1 2 no 1.0 1.0", "[ atomtypes ]", "P 72.0 0.0 A %.3f 4.0" % SIG] + mol("R1", n1) + mol("R2", n2)
+    lines += ["[ system ]", "s", "[ molecules ]", "R1 2", "R2 2"]
+    return "\n".join(lines) + "\n"
+
+
+def _ring2_case(cs):
+    from polyply.src.topology import Topology
+    from polyply.src.gen_coords import _initialize_cylces
+    a = cs["a"]
+    with tempfile.TemporaryDirectory(prefix="verif_c07_", dir="/var/tmp") as wd:
+        top = Path(wd) / "r.top"
+        top.write_text(two_ring_top(a["n"], a["n2"]))
+        try:
+            topology = Topology.from_gmx_topfile(name="r", path=top)
+            topology.preprocess()
+            _initialize_cylces(topology, ["R1", "R2"], 0.2)
+        except Exception as exc:
+            return ("diff", "exception %s: %s" % (type(exc).__name__, exc))
+        for name, idxs, want in (("R1", (0, 1), cs["pair"]), ("R2", (2, 3), cs["pair2"])):
+            for idx in idxs:
+                keys = list(topology.distance_restraints[(name, idx)].items())
+                if len(keys) != 1 or sorted(int(x) for x in keys[0][0]) != want or keys[0][1][0] != 0.0:
+                    return ("diff", "rings of %d and %d declared cyclic together: molecule %s #%d is restrained at %s, its closing edge is %s" % (
+                        a["n"], a["n2"], name, idx, [k for k, _ in keys], want))
     return ("ok", None)
 
 
@@ -104,7 +140,9 @@ def _ring_case(cs):
 
 def _s2i(cs):
     try:
-        return _window_case(cs) if cs["kind"] == "window" else _ring_case(cs)
+        if cs["kind"] in ("window", "window2"):
+            return _window_case(cs)
+        return _ring_case(cs) if cs["kind"] == "ring" else _ring2_case(cs)
     except Exception as exc:
         return ("machinery", "%s: %s" % (type(exc).__name__, exc))
 
@@ -133,6 +171,12 @@ RG 1
 %s
 [ bonds ]
 %s
+[ moleculetype ]
+RH 1
+[ atoms ]
+%s
+[ bonds ]
+%s
 [ system ]
 mix
 [ molecules ]
@@ -140,6 +184,7 @@ CH %d
 PL %d
 RG %d
 CH 1
+RH 1
 """
 
 
@@ -152,7 +197,9 @@ def mix_top(nch, npl, nrg, ring):
         if closed:
             b.append("%d 1 1 0.47 100" % n)
         return "\n".join(b)
-    return MIX_TOP % (atoms(8, ["RA", "RB"]), bonds(8), atoms(10, ["RA"]), bonds(10), atoms(ring, ["RC"]), bonds(ring, True), nch, npl, nrg)
+    ring2 = ring + 2 if ring < 10 else ring - 3     # a second cyclic molecule type of another size
+    return MIX_TOP % (atoms(8, ["RA", "RB"]), bonds(8), atoms(10, ["RA"]), bonds(10), atoms(ring, ["RC"]), bonds(ring, True),
+                      atoms(ring2, ["RC"]), bonds(ring2, True), nch, npl, nrg)
 
 
 def random_bld(rng, box, nch):
@@ -223,11 +270,19 @@ def _e2e(arg):
         ents, txt, rw = [], [], None
     cyc_tol = round(rng.uniform(0.1, 0.3), 2)
     lp = round(rng.uniform(0.6, 2.0), 2)
-    mname_of = ["CH"] * nch + ["PL"] * npl + ["RG"] * nrg + ["CH"]
+    mname_of = ["CH"] * nch + ["PL"] * npl + ["RG"] * nrg + ["CH", "RH"]
+    ring2 = ring + 2 if ring < 10 else ring - 3
+    # a second distance restraint that shares its anchor with the first one (shorter path listed first or second)
+    anchor = dist["ref"] if dist["ref"] < dist["target"] else dist["target"]
+    far = dist["target"] if dist["ref"] < dist["target"] else dist["ref"]
+    dist2 = {"ref": anchor, "target": rng.choice([t for t in (3, 4, 5, 6, 7) if t != far]), "d": round(rng.uniform(0.6, 1.2), 2), "tol": round(rng.uniform(0.15, 0.3), 2)}
+    dist_lines = ["%d %d %.2f %.2f" % (dist["ref"], dist["target"], dist["d"], dist["tol"]), "%d %d %.2f %.2f" % (dist2["ref"], dist2["target"], dist2["d"], dist2["tol"])]
+    if rng.random() < 0.5:
+        dist_lines.reverse()
     text = list(txt)
     if rw:
         text.append("[ molecule ]\nCH %d %d\n[ rw_restriction ]\n%s %d %d %.1f %.1f %.1f %.1f" % (rw["mlo"], rw["mhi"], rw["rn"], rw["rlo"], rw["rhi"], 0.0, 0.0, 1.0, rw["angle"]))
-    text.append("[ molecule ]\nCH %d %d\n[ distance_restraints ]\n%d %d %.2f %.2f" % (dist["mlo"], dist["mhi"], dist["ref"], dist["target"], dist["d"], dist["tol"]))
+    text.append("[ molecule ]\nCH %d %d\n[ distance_restraints ]\n%s" % (dist["mlo"], dist["mhi"], "\n".join(dist_lines)))
     text.append("[ molecule ]\nPL %d %d\n[ persistence_length ]\nWCM %.2f 0 9" % (nch, nch + npl, lp))
     samples = {}
     o_gen = pers.generate_end_end_distances
@@ -278,12 +333,13 @@ def _e2e(arg):
                 return float(np.linalg.norm(dv))
             pairs_ok, raw = True, []
             for mi in range(dist["mlo"], dist["mhi"]):
-                dd = dist_of(mi, dist["ref"], dist["target"])
-                raw.append(["dist", mi, dd])
-                pairs_ok = pairs_ok and (dist["d"] - dist["tol"] - 1e-6 <= dd <= dist["d"] + dist["tol"] + SIG + 1e-6)
+                for dr in (dist, dist2):
+                    dd = dist_of(mi, dr["ref"], dr["target"])
+                    raw.append(["dist", mi, dr["ref"], dr["target"], dd])
+                    pairs_ok = pairs_ok and (dr["d"] - dr["tol"] - 1e-6 <= dd <= dr["d"] + dr["tol"] + SIG + 1e-6)
             for mi, name in enumerate(mname_of):
-                if name == "RG":
-                    dd = dist_of(mi, 0, ring - 1)
+                if name in ("RG", "RH"):
+                    dd = dist_of(mi, 0, (ring if name == "RG" else ring2) - 1)
                     raw.append(["ring", mi, dd])
                     pairs_ok = pairs_ok and (dd <= cyc_tol + SIG + 1e-6)
             ee_ok = bool(samples) and sorted(samples.get("mols", [])) == list(range(nch, nch + npl))
@@ -304,7 +360,7 @@ def _e2e(arg):
             (wd / "m.bld").write_text("\n".join(text) + "\n")
             with w.recording(monitor=monitor) as rec:
                 try:
-                    gen_coords(toppath=wd / "m.top", outpath=wd / "o.gro", name="m", box=np.array([box] * 3), build=[wd / "m.bld"], cycles=["RG"], cycle_tol=cyc_tol,
+                    gen_coords(toppath=wd / "m.top", outpath=wd / "o.gro", name="m", box=np.array([box] * 3), build=[wd / "m.bld"], cycles=["RG", "RH"], cycle_tol=cyc_tol,
                                max_force=5e4, grid_spacing=0.4)
                 except _Timeout:
                     return {"noverdict": "timeout"}
@@ -369,6 +425,8 @@ def run(tier):
         if kind == "diff":
             ck.violation({"kind": "s2i", "case": cs}, what="%s case %s: %s" % (cs["kind"], cs["a"], msg))
     ck.sample({"window case": next(x for x in cases if x["kind"] == "window" and x["a"]["d"] > 0)})
+    for kind in ("window", "window2", "ring", "ring2"):
+        ck.require(ck.actions.get(kind), "no %s case was replayed" % kind)
     ck.stage("I->S: random build files through gen_coords")
     rings = [3, 5, 8, 12, 4, 6] if tier == "quick" else [3, 4, 5, 6, 7, 8, 9, 10, 11, 12] * 6
     args = [(sd * 1000 + i, r) for i, r in enumerate(rings)]
